@@ -60,6 +60,7 @@ class Injector:
         self.plan = None          # (op index, phase) or None
         self.n = 0
         self.log = []
+        self.inside = 0           # > 0 while one of the wrapped high-level operations runs (its own unlinks are not counted again)
 
     def _mine(self, p):
         return os.path.realpath(str(p)).startswith(self.dst_root)
@@ -71,9 +72,34 @@ class Injector:
         inj = self
         self.orig = (pathlib.Path.mkdir, builtins.open, shutil.rmtree, shutil.copytree, zipfile.ZipFile.extractall)
         o_mkdir, o_open, o_rmtree, o_copytree, o_extract = self.orig
+        self.orig_low = (pathlib.Path.unlink, pathlib.Path.rmdir, os.remove, os.unlink, os.rmdir)
+        o_punlink, o_prmdir, o_remove, o_unlink, o_rmdir = self.orig_low
+
+        def low(orig, kind, path_of):
+            # entry-by-entry deletion done by the function itself: every removed entry is a crash point of its own
+            def f(*a, **k):
+                p_ = path_of(*a)
+                if inj.inside or not inj._mine(p_):
+                    return orig(*a, **k)
+                inj.n += 1
+                inj.log.append(f"{kind}:{os.path.basename(str(p_))}")
+                inj.inside += 1
+                try:
+                    r = orig(*a, **k)
+                finally:
+                    inj.inside -= 1
+                if inj._hit(kind, "after"):
+                    raise Crash(f"{kind}#{inj.n}:after({os.path.basename(str(p_))} removed)")
+                return r
+            return f
+        pathlib.Path.unlink = low(o_punlink, "unlink", lambda self_, *a: self_)
+        pathlib.Path.rmdir = low(o_prmdir, "rmdir", lambda self_, *a: self_)
+        os.remove = low(o_remove, "unlink", lambda p_, *a: p_)
+        os.unlink = low(o_unlink, "unlink", lambda p_, *a: p_)
+        os.rmdir = low(o_rmdir, "rmdir", lambda p_, *a: p_)
 
         def mkdir(self_, *a, **k):
-            if not inj._mine(self_):
+            if inj.inside or not inj._mine(self_):
                 return o_mkdir(self_, *a, **k)
             inj.n += 1
             inj.log.append("mkdir")
@@ -96,8 +122,17 @@ class Injector:
         def rmtree(path, *a, **k):
             if not inj._mine(path):
                 return o_rmtree(path, *a, **k)
+            if inj.inside:
+                return o_rmtree(path, *a, **k)
             inj.n += 1
             inj.log.append("rmtree")
+            inj.inside += 1
+            try:
+                return rmtree_body(path, *a, **k)
+            finally:
+                inj.inside -= 1
+
+        def rmtree_body(path, *a, **k):
             if inj._hit("rmtree", "during-start-first"):
                 # a crash inside rmtree: entries are removed one by one; the start marker happens to go first
                 s = os.path.join(str(path), "autocopy_start.txt")
@@ -121,6 +156,13 @@ class Injector:
                 return o_copytree(src, dst, *a, **k)
             inj.n += 1
             inj.log.append("copytree")
+            inj.inside += 1
+            try:
+                return copytree_body(src, dst, *a, **k)
+            finally:
+                inj.inside -= 1
+
+        def copytree_body(src, dst, *a, **k):
             if inj._hit("copytree", "during"):
                 # partial copy: the first file only
                 for root, dirs, files in os.walk(str(src)):
@@ -139,6 +181,13 @@ class Injector:
                 return o_extract(self_, path, *a, **k)
             inj.n += 1
             inj.log.append("extractall")
+            inj.inside += 1
+            try:
+                return extract_body(self_, path, *a, **k)
+            finally:
+                inj.inside -= 1
+
+        def extract_body(self_, path=None, *a, **k):
             if inj._hit("extractall", "during"):
                 names = self_.namelist()
                 if names:
@@ -154,6 +203,7 @@ class Injector:
 
     def __exit__(self, *a):
         pathlib.Path.mkdir, builtins.open, shutil.rmtree, shutil.copytree, zipfile.ZipFile.extractall = self.orig
+        pathlib.Path.unlink, pathlib.Path.rmdir, os.remove, os.unlink, os.rmdir = self.orig_low
 
 
 PHASES = ["after", "during", "during-start-first", "during-payload-first"]
@@ -299,6 +349,28 @@ def check_workers(n_zips, workers):
         shutil.rmtree(root, ignore_errors=True)
 
 
+def check_uppercase_zips():
+    """a source folder whose archives end in .ZIP: whatever format the detector decides on, a normal return means a complete copy
+    (the archives themselves, or their extracted content) - never an empty folder with both markers"""
+    from kappadata.copying.folder import copy_folder_from_global_to_local as fn
+    root = tempfile.mkdtemp(prefix="kdverif-c20-")
+    try:
+        g, rel, expected = make_source(root, "zips")
+        src = os.path.join(g, rel)
+        for f in os.listdir(src):
+            os.rename(os.path.join(src, f), os.path.join(src, f[:-4] + ".ZIP"))
+        local = os.path.join(root, "local")
+        os.makedirs(local)
+        fn(g, local, relative_path=rel, num_workers=0)
+        got = tree(os.path.join(local, rel))
+        if got != expected and got != tree(src):
+            return {"what": "normal return but the local folder is neither the archives nor their content", "site": "uppercase-zip",
+                    "local files": sorted(got)[:6]}
+        return None
+    finally:
+        shutil.rmtree(root, ignore_errors=True)
+
+
 def classify(site):
     """stable label of a crash window for the known-findings file"""
     if site is None:
@@ -321,10 +393,10 @@ def search(two_crashes=True, thorough=False):
             continue      # classwise layout differs from the generic oracle; covered by the folder variant
         if not rel and fmt == "zip":
             continue
-        singles = [(k, ph) for k in range(1, 6) for ph in PHASES]
+        singles = [(k, ph) for k in range(1, 9) for ph in PHASES]
         plans = [[p] for p in singles]
         if two_crashes:
-            plans += [[p, q] for p in singles[:8] for q in singles[:12]]
+            plans += [[p, q] for p in singles[:8] for q in singles[:24:1] if q[1] in ("after", "during-start-first")]
         for plan in plans:
             n += 1
             r = run_scenario(fn_name, fmt, plan, with_relative=rel)
@@ -336,7 +408,7 @@ def search(two_crashes=True, thorough=False):
         if r is not None:
             r.update(function=fn_name, format=fmt, relative_path=rel, plan=[], label="user-provided")
             fails.append(r)
-    extra = [check_two_splits, check_symlink_source, lambda: check_workers(5, 2)]
+    extra = [check_two_splits, check_symlink_source, check_uppercase_zips, lambda: check_workers(5, 2)]
     if thorough:
         extra += [lambda: check_workers(7, 3), lambda: check_workers(4, 2), lambda: check_workers(3, 1)]
     for f in extra:
